@@ -9,7 +9,7 @@ Ties, re-established on every run:
       kind 2  handler    (modelled handler, state, arg, data) -> state after _call_handler
       kind 5  handler, Vi-state projection (accept_search)
   * kind 3  Buffer mutator sequences on a real Buffer  (L1)
-  * kind 4  KeyProcessor._fix_vi_cursor_position on live states (L2)
+  * L2: live states through the real _call_handler with a no-op handler (kind 2, HIgnore)
 """
 import json
 import multiprocessing
@@ -65,6 +65,14 @@ def judge(cfg, keys, r):
                 h = (a.get("handler") or "?").split(".")[-1]
                 fam = "history-in-insert-multiple" if h in ("previous_history", "next_history") else h
                 out.append(({"clause": tag, "family": fam}, cl + " (after %s)" % h, j))
+            elif tag == "vi-nav-cursor":
+                if any(t == tag for _, t in drv.oracle_state(b)):
+                    continue            # report the key after which the cursor first rests there, once
+                h = (a.get("handler") or "?")
+                # in a read-only buffer the only way there is a handler whose edit raised the swallowed
+                # EditReadOnlyBuffer (the fix-up is skipped on that path)
+                fam = "readonly-swallowed-edit" if a["ro"] else h.split(".")[-1]
+                out.append(({"clause": tag, "family": fam}, cl + " (after %s)" % h.split(".")[-1], j))
             else:
                 out.append(({"clause": tag, "editing": a["editing"]}, cl, j))
         if tok == "<escape>" and not exc:
@@ -362,6 +370,10 @@ def gen_bop_cases(chk):
 # L2: _fix_vi_cursor_position on live states
 
 def fixvi_cases_and_results(chk):
+    """Live states pushed through the real KeyProcessor._call_handler with a
+    handler that does nothing: what remains is the post-command work
+    (_fix_vi_cursor_position, leaving temporary navigation mode).  The model
+    side is `call_handler HIgnore` (case kind 2, handler 27)."""
     import asyncio
     rng = chk.rng
     n = 1500 if chk.tier == "thorough" else 400
@@ -380,12 +392,16 @@ def fixvi_cases_and_results(chk):
         from prompt_toolkit.document import Document
         from prompt_toolkit.enums import EditingMode
         from prompt_toolkit.filters import to_filter
+        from prompt_toolkit.key_binding.key_bindings import Binding
+        from prompt_toolkit.key_binding.key_processor import KeyPress
         from prompt_toolkit.key_binding.vi_state import InputMode
+        from prompt_toolkit.keys import Keys
         from prompt_toolkit.selection import SelectionState, SelectionType
         s = drv.Session({"mode": "vi", "multiline": True, "text": "", "history": []})
         await s.start()
         out = []
         modes = [InputMode.INSERT, InputMode.INSERT_MULTIPLE, InputMode.NAVIGATION, InputMode.REPLACE, InputMode.REPLACE_SINGLE]
+        noop = Binding((Keys.Any,), handler=lambda event: None)
         try:
             app = s.app
             b = s.session.default_buffer
@@ -395,6 +411,7 @@ def fixvi_cases_and_results(chk):
                     b.read_only = to_filter(False)
                     b.set_document(Document(unS(text), cur), bypass_readonly=True)
                     b.selection_state = SelectionState(sel[0], [SelectionType.CHARACTERS, SelectionType.LINES][sel[1]]) if sel else None
+                    b.multiple_cursor_positions = []
                     b.preferred_column = pref[0] if pref else None
                     b.read_only = to_filter(bool(ro))
                     app.editing_mode = EditingMode.VI if evi else EditingMode.EMACS
@@ -404,33 +421,27 @@ def fixvi_cases_and_results(chk):
                     vs.operator_arg = oparg[0] if oparg else None
                     vs.waiting_for_digraph = bool(dg)
                     vs.temporary_navigation_mode = bool(tmp)
-                    app.key_processor._fix_vi_cursor_position(types.SimpleNamespace(app=app))
-                    st2 = list(st)
-                    st2[0], st2[1] = S(b.text), b.cursor_position
-                    st2[5] = [] if b.preferred_column is None else [b.preferred_column]
-                    out.append(st2)
+                    app.key_processor.arg = None
+                    pre = sx_norm(s.model_state())
+                    code = 0
+                    try:
+                        with_watchdog(lambda: app.key_processor._call_handler(noop, [KeyPress("x")]), 5)
+                    except Exception:  # noqa
+                        code = 99
+                    out.append((pre, [code, sx_norm(s.model_state())]))
         finally:
             await s.finish()
         return out
     results = asyncio.run(main())
-    cases = []
-    for st in states:
-        st = list(st)
-        st[6] = [st[0]]      # the model holds one working line here (history is irrelevant to the fix)
-        st[7] = 0
-        cases.append([4, st])
-    res2 = []
-    for r in results:
-        r = list(r)
-        r[6] = [r[0]]
-        r[7] = 0
-        res2.append(r)
-    return cases, res2
+    cases = [[2, 27, pre, 1, []] for pre, _ in results]
+    return cases, [r for _, r in results]
 
 
 def oracle_fixvi(case, res):
     """C05_vi_fixup on the implementation's result."""
-    st = res
+    if res[0] != 0:
+        return "_call_handler raised with a handler that does nothing"
+    st = res[1]
     text, cur = unS(st[0]), st[1]
     evi, mode, op, dg, tmp, ro, sel = st[8], st[9], st[10], st[12], st[13], st[4], st[2]
     nav = evi and not op and not dg and not sel and (mode == 2 or tmp or ro)
@@ -465,6 +476,8 @@ def gen_explore_cases(chk, all_keys):
         (dict(mode="emacs", multiline=False, text="foo bar foo", cursor=5, read_only=True), gen.tokenize("<c-r>foo<c-m><escape>-n")),
         (dict(mode="emacs", multiline=False, text="ab", cursor=1, clipboard=["whole line", "LINES"]), gen.tokenize("<escape>0<c-y>")),
         (dict(mode="vi", multiline=True, text="ab cd\n\nef", cursor=3, history=["h1"]), ["<escape>", '"', "<c-m>", "k"]),
+        (dict(mode="vi", multiline=True, text="abc\ndef\nghi", cursor=1, history=["x"]), gen.tokenize("<escape><c-v>jjA<pageup><backspace>")),
+        (dict(mode="vi", multiline=True, text="foo bar", cursor=2, read_only=True), ["<escape>", "<", "<end>", "L"]),
     ]
     for cfg, keys in directed:
         cases.append((cfg, keys))
@@ -474,6 +487,13 @@ def gen_explore_cases(chk, all_keys):
         cfg = gen.rand_config(rng)
         cases.append((cfg, gen.rand_keys(rng, cfg, all_keys, maxlen=60 if thorough else 40)))
         dist["random"] += 1
+    dist["block_insert_family"] = dist["search_family"] = 0
+    for cfg, keys in gen.block_insert_family(thorough):
+        cases.append((cfg, keys))
+        dist["block_insert_family"] += 1
+    for cfg, keys in gen.search_family(thorough):
+        cases.append((cfg, keys))
+        dist["search_family"] += 1
     if thorough:
         for cfg, keys in gen.exhaustive_vi_thorough():
             cases.append((cfg, keys))
@@ -572,7 +592,7 @@ def main(tier):
     fcases, fres = fixvi_cases_and_results(chk)
     f_bad = set()
     for i, (c, r) in enumerate(zip(fcases, fres)):
-        chk.count_case(c, c[1][1] != r[1])
+        chk.count_case(c, c[2][1] != r[1][1])
         bad = oracle_fixvi(c, r)
         if bad:
             f_bad.add(i)
@@ -597,7 +617,7 @@ def main(tier):
                 if x != y:
                     return {"layer": "buffer", "op": BOPS.get(c[2][j][0], "?")}
             return {"layer": "buffer"}
-        return {"layer": "fix_vi"}
+        return {"layer": "?"}
 
     def oracle_failed(i):
         if i < nd + nh:
@@ -642,7 +662,7 @@ def main(tier):
     if hcases:
         chk.sample({"handler_case": str(hcases[0])[:300], "handler": hnames[0], "result": str(hres[0])[:200]})
     chk.assumptions += [
-        "proved: buffer layer (18 mutators), Vi cursor fix, Escape dispatch over the regenerated table for all atom valuations, 37 handler models; "
+        "proved: buffer layer (18 mutators), Vi cursor fix, Escape dispatch over the regenerated table for all atom valuations, 38 handler models; "
         "everything else (the other ~290 handlers, multi-key dispatch with a non-empty key buffer, completion/search/undo state) is explored with the oracle, not proved",
         "Escape theorem hypotheses: vi_mode, not emacs_mode, buffer_has_focus, not in_quoted_insert, key buffer empty before Escape",
         "accept_search is modelled only in its effect on the Vi state (its early returns are unreachable under its is_searching filter)",
